@@ -1,6 +1,8 @@
 // C01: well-formed text transcodes losslessly and to the standard encoding, by every public route.
 #include "gen/conv_calls.h"
+#include "gen/conv_calls_ext.h"
 #include "gen/unit_gen.h"
+#include "gen/long_gen.h"
 
 #include <string>
 #include <string_view>
@@ -203,6 +205,96 @@ std::string show_scalars(const std::vector<uint32_t> &sc) {
     return s;
 }
 
+
+// ------------------------------------------------------------------------------------------
+// Extended routes (gen/conv_calls_ext.h): C01's oracle for one reported call - exact reference units.
+std::string judge01(const convx::Call &c) {
+    const ref::Expect &e = *c.e;
+    if (!c.verbatim && (e.has_offending || e.has_irregular)) return std::string();     // not well-formed text as seen by this entry point: C02's domain
+    if (c.to == ref::LATIN1 && e.latin1_range) return std::string();                  // characters >= U+0100 to Latin-1: C02's domain
+    if (c.o.kind != 0) return "rejects well-formed input: " + c.o.what;
+    if (c.o.out != e.out || c.o.reported_size != e.out.size()) return "gives " + verif::units(c.o.out, 32) + " (size " + verif::unum(c.o.reported_size) + "), the standard encoding is " + verif::units(e.out, 32) + " (size " + verif::unum(e.out.size()) + ")";
+    if (!c.o.terminated) return "result not NUL-terminated";
+    return std::string();
+}
+
+bool eq_bytes(const ST::string &s, const Units &u8, size_t from, size_t count) {
+    if (s.size() != count || s.c_str()[count] != 0) return false;
+    for (size_t i = 0; i < count; i++) if ((uint8_t)s.c_str()[i] != u8[from + i]) return false;
+    return true;
+}
+
+// Builds the text one character at a time with operator+= / operator+ (character on either side) of every character type.
+std::string char_chain(const std::vector<uint32_t> &sc, const Units &u8, long &ncalls) {
+    const size_t n = sc.size();
+    std::vector<size_t> off(n + 1, 0);                       // UTF-8 offset of every scalar
+    for (size_t i = 0; i < n; i++) off[i + 1] = off[i] + (sc[i] < 0x80 ? 1 : sc[i] < 0x800 ? 2 : sc[i] < 0x10000 ? 3 : 4);
+    const size_t start = n > 20 ? n - 20 : 0;
+    const std::string head; (void)head;
+    std::vector<char> v8; for (uint32_t x : u8) v8.push_back((char)x);
+    try {
+        for (int variant = 0; variant < 4; variant++) {
+            ST::string t = ST::string::from_validated(v8.data(), off[start]);
+            for (size_t i = start; i < n; i++) {
+                const uint32_t v = sc[i];
+                switch (variant) {
+                case 0: t += (char32_t)v; break;
+                case 1: t += (wchar_t)v; break;
+                case 2: if (v < 0x80) t = t + (char)v; else if (v < 0x10000) t = t + (char16_t)v; else t = t + (char32_t)v; break;
+                default: if (v < 0x80) t += (char)v; else if (v < 0x10000) t += (char16_t)v; else t = t + (wchar_t)v; break;
+                }
+                ncalls++;
+                if (!eq_bytes(t, u8, 0, off[i + 1])) return std::string("appending U+") + verif::units(&v, 1) + " with " + (variant == 0 ? "operator+=(char32_t)" : variant == 1 ? "operator+=(wchar_t)" : variant == 2 ? "operator+(ST::string,char/char16_t/char32_t)" : "operator+=(char/char16_t) / operator+(ST::string,wchar_t)") + " gives " + verif::units(as_units(t), 32) + ", the standard encoding is " + verif::units(Units(u8.begin(), u8.begin() + off[i + 1]), 32);
+            }
+        }
+        const size_t stop = n < 20 ? n : 20;                  // prepend: build sc[0..stop) from the back
+        for (int variant = 0; variant < 2; variant++) {
+            ST::string t = ST::string::from_validated(v8.data() + off[stop], off[n] - off[stop]);
+            for (size_t i = stop; i-- > 0;) {
+                const uint32_t v = sc[i];
+                if (variant == 0) t = (char32_t)v + t;
+                else if (v < 0x80) t = (char)v + t; else if (v < 0x10000) t = (char16_t)v + t; else t = (wchar_t)v + t;
+                ncalls++;
+                if (!eq_bytes(t, u8, off[i], off[n] - off[i])) return std::string("prepending U+") + verif::units(&v, 1) + " with " + (variant == 0 ? "operator+(char32_t,ST::string)" : "operator+(char/char16_t/wchar_t,ST::string)") + " gives " + verif::units(as_units(t), 32) + ", the standard encoding is " + verif::units(Units(u8.begin() + off[i], u8.end()), 32);
+            }
+        }
+        // ST::string + ST::string and += ST::string at every third split
+        for (size_t i = 0; i <= n; i += 3) {
+            ST::string a = ST::string::from_validated(v8.data(), off[i]), b = ST::string::from_validated(v8.data() + off[i], off[n] - off[i]);
+            ST::string cat = a + b; ST::string acc(a); acc += b;
+            ncalls += 2;
+            if (!eq_bytes(cat, u8, 0, off[n]) || !eq_bytes(acc, u8, 0, off[n])) return "ST::string + ST::string / += ST::string split at scalar " + verif::unum(i) + " gives " + verif::units(as_units(cat), 32);
+        }
+    } catch (...) { return "character concatenation: " + verif::describe_current_exception(); }
+    return std::string();
+}
+
+// Extended routes for one scalar sequence; [a,b) is a scalar range used for the slicing / aliasing calls.  Generated cases run the
+// entry points of one source encoding (chosen by `sel`) plus the Latin-1 ones when the text is Latin-1; directed cases run all of them.
+std::string more_routes(const std::vector<uint32_t> &sc, unsigned sel, size_t a, size_t b, bool all_encodings, long &ncalls) {
+    const size_t n = sc.size();
+    if (a > n) a = n; if (b > n) b = n; if (a > b) std::swap(a, b);
+    bool latin = true; for (uint32_t v : sc) if (v >= 0x100) latin = false;
+    const convx::Judge judge = judge01;
+    for (int ei = 0; ei < 4; ei++) {
+        const ref::Enc enc = (ref::Enc)ei;
+        if (enc == ref::LATIN1 && !latin) continue;
+        if (!all_encodings && enc != ref::LATIN1 && (unsigned)ei != (sel >> 2) % 3) continue;
+        const Units u = ref::encode(enc, sc);
+        convx::Params p; p.sel = sel + 3 * (unsigned)ei;
+        p.k = ref::encode(enc, std::vector<uint32_t>(sc.begin(), sc.begin() + a)).size();
+        p.len = ref::encode(enc, std::vector<uint32_t>(sc.begin() + a, sc.begin() + b)).size();
+        p.null_empty = (sel & 0x40) != 0;
+        std::string why = convx::for_each_ext(enc, u, p, judge, ncalls);
+        if (!why.empty()) return why;
+    }
+    return char_chain(sc, ref::encode(ref::UTF8, sc), ncalls);
+}
+
+std::string lean_long(const std::vector<uint32_t> &sc, long &ncalls);      // defined with the lean enumerator below
+std::string literal_case(unsigned idx, long &ncalls, std::string *text);   // compiled-in literals (ST_LITERAL, _st, _stbuf ...)
+enum { kNumLiterals = 16 };
+
 }  // namespace
 
 int verif_case(const uint8_t *data, size_t size, Case &c) {
@@ -210,17 +302,45 @@ int verif_case(const uint8_t *data, size_t size, Case &c) {
     uint8_t first = r.u8();
     long ncalls = 0;
     std::string why;
-    if (first == 0xFE) {                       // directed Latin-1 bytes
-        std::vector<uint8_t> b; while (!r.exhausted()) b.push_back(r.u8());
-        c.label("latin1-directed"); c.nontrivial = !b.empty();
+    if (first == 0xFD) {                       // long text: a short pattern repeated to an exact total length (see gen/long_gen.h)
+        ugen::LongText t = ugen::long_scalars(r);
+        c.label("long-run"); c.label(t.size_label);
+        size_t widths[5] = {0, 0, 0, 0, 0};
+        for (uint32_t v : t.pattern) widths[v < 0x80 ? 1 : v < 0x800 ? 2 : v < 0x10000 ? 3 : 4]++;
+        if (widths[2]) c.label("long-run-of-2-byte"); if (widths[3]) c.label("long-run-of-3-byte"); if (widths[4]) c.label("long-run-of-4-byte/surrogate-pair");
+        bool latin = true; for (uint32_t v : t.pattern) if (v >= 0x100) latin = false;
+        if (latin && widths[2]) c.label("long-run-of-latin1-high-bytes");
+        if (t.pattern.size() == 1) c.label("long-run-identical");
+        if (!t.scalars.empty() && t.scalars.back() >= 0x80) c.label("ends-in-multi-unit-character");
+        if (t.total % 4096 == 0) c.label("length-multiple-of-4096"); else if ((t.total + 3) % 4096 <= 5) c.label("length-near-multiple-of-4096");
+        c.nontrivial = widths[2] + widths[3] + widths[4] > 0;
+        why = lean_long(t.scalars, ncalls);
+        if (c.want_text) {
+            std::string pat; char tmp[16]; for (uint32_t v : t.pattern) { snprintf(tmp, sizeof tmp, "U+%04X ", v); pat += tmp; }
+            c.text = "C01 long text: pattern " + pat + "repeated, " + verif::unum(t.total) + " " + conv::enc_name(t.anchor) + " units exactly (" + verif::unum(t.scalars.size()) + " scalars, ASCII filler " +
+                     (t.pad_front ? "in front" : "behind") + ") -> " + verif::num(ncalls) + " conversions x modes equal to the reference encodings";
+        }
+    } else if (first == 0xFC) {                // compiled-in literals: ST_LITERAL / ST_*_LITERAL macros, "..."_st and "..."_stbuf of every prefix
+        unsigned idx = r.u8() % kNumLiterals;
+        c.label("literal"); c.nontrivial = idx >= 2;
+        std::string text;
+        why = literal_case(idx, ncalls, c.want_text ? &text : nullptr);
+        if (c.want_text) c.text = "C01 literal #" + verif::unum(idx) + " " + text + " -> " + verif::num(ncalls) + " literal forms equal to the reference encodings";
+    } else if (first == 0xFE || (first != 0xFF && (first & 7) == 7)) {      // Latin-1 bytes: directed, or generated
+        std::vector<uint8_t> b;
+        if (first == 0xFE) { while (!r.exhausted()) b.push_back(r.u8()); c.label("latin1-directed"); c.nontrivial = !b.empty(); }
+        else {
+            size_t n = r.flag() ? r.range(0, 40) : r.range(0, 300);
+            for (size_t i = 0; i < n; i++) b.push_back(r.u8());
+            c.label("latin1"); bool hi = false; for (uint8_t x : b) if (x >= 0x80) hi = true;
+            c.nontrivial = hi;
+        }
         why = latin1_routes(b, ncalls);
-        if (c.want_text) c.text = "C01 latin-1 bytes " + verif::units(b.data(), b.size(), 24) + " -> " + verif::num(ncalls) + " routes";
-    } else if (first != 0xFF && (first & 7) == 7) {             // generated Latin-1 bytes
-        std::vector<uint8_t> b; size_t n = r.flag() ? r.range(0, 40) : r.range(0, 300);
-        for (size_t i = 0; i < n; i++) b.push_back(r.u8());
-        c.label("latin1"); bool hi = false; for (uint8_t x : b) if (x >= 0x80) hi = true;
-        c.nontrivial = hi;
-        why = latin1_routes(b, ncalls);
+        if (why.empty()) {
+            unsigned sel = r.u8(); size_t a = r.idx(b.size() + 1), e = r.idx(b.size() + 1);
+            c.label("extended-routes");
+            why = more_routes(std::vector<uint32_t>(b.begin(), b.end()), sel, a, e, first == 0xFE, ncalls);
+        }
         if (c.want_text) c.text = "C01 latin-1 bytes " + verif::units(b.data(), b.size(), 24) + " -> " + verif::num(ncalls) + " routes";
     } else {
         std::vector<uint32_t> sc;
@@ -232,7 +352,16 @@ int verif_case(const uint8_t *data, size_t size, Case &c) {
         if (widths[2]) c.label("has-2-byte"); if (widths[3]) c.label("has-3-byte"); if (widths[4]) c.label("has-4-byte/surrogate-pair");
         if (sc.size() >= 12 && sc.size() <= 17) c.label("length-at-small-buffer-limit");
         if (sc.size() > 200) c.label("long");
+        if (!sc.empty() && sc.back() >= 0x80) c.label("ends-in-multi-unit-character");
         why = all_routes(sc, ncalls);
+        if (why.empty()) {
+            // trailing bytes (after the existing layout): rotation of target pre-states and the scalar range used for slices / aliasing sources
+            unsigned sel = first == 0xFF ? 0 : r.u8();
+            size_t a = first == 0xFF ? (sc.size() > 1 ? 1 : 0) : r.idx(sc.size() + 1), e = first == 0xFF ? sc.size() : r.idx(sc.size() + 1);
+            c.label("extended-routes");
+            if (a != e && !(a == 0 && e == sc.size()) && !(e == 0 && a == sc.size())) c.label("aliasing-source-is-a-proper-slice");
+            why = more_routes(sc, sel, a, e, first == 0xFF, ncalls);
+        }
         if (c.want_text) c.text = "C01 " + show_scalars(sc) + " -> " + verif::num(ncalls) + " route x mode calls all equal to the reference encodings";
     }
     if (!why.empty()) return c.fail(why);
@@ -283,6 +412,161 @@ const char *lean_check(const Enc3 &e) {
     if (!same(s.to_wchar(), e.u32, e.n32)) return "ST::string::to_wchar";
     return nullptr;
 }
+
+// ---- long texts: typed exact-size heap arrays, every measure/convert pair, no per-unit std::vector on the library side
+template <class B, class T> inline std::string diff(const char *what, const B &b, const T *want, size_t n) {
+    if (b.size() != n) return std::string(what) + ": size() is " + verif::unum(b.size()) + ", the standard encoding has " + verif::unum(n) + " units";
+    for (size_t i = 0; i < n; i++) if (b.data()[i] != (typename B::value_type)want[i])
+        return std::string(what) + ": unit " + verif::unum(i) + " of " + verif::unum(n) + " is " + verif::units(&b.data()[i], 1) + ", the standard encoding has " + verif::units(&want[i], 1);
+    if (b.data()[n] != 0) return std::string(what) + ": result not NUL-terminated";
+    return std::string();
+}
+inline std::string diff(const char *what, const ST::string &s, const char *want, size_t n) {
+    if (s.size() != n) return std::string(what) + ": size() is " + verif::unum(s.size()) + ", the standard encoding has " + verif::unum(n) + " units";
+    if (memcmp(s.c_str(), want, n) != 0) { size_t i = 0; while (s.c_str()[i] == want[i]) i++; return std::string(what) + ": byte " + verif::unum(i) + " of " + verif::unum(n) + " differs from the standard encoding"; }
+    if (s.c_str()[n] != 0) return std::string(what) + ": result not NUL-terminated";
+    return std::string();
+}
+#define LEAN(what, expr, want, n) do { std::string d__ = diff(what, expr, want, n); ncalls++; if (!d__.empty()) return d__ + " [mode " + mname + "]"; } while (0)
+
+std::string lean_long_inner(const std::vector<uint32_t> &sc, long &ncalls) {
+    std::vector<char> v8; std::vector<char16_t> v16; std::vector<char32_t> v32; std::vector<char> vl1;
+    v8.reserve(sc.size() * 2); v16.reserve(sc.size()); v32.reserve(sc.size());
+    bool latin = true;
+    for (uint32_t v : sc) {
+        Units a, b; ref::encode_one(ref::UTF8, v, a); ref::encode_one(ref::UTF16, v, b);
+        for (uint32_t x : a) v8.push_back((char)x);
+        for (uint32_t x : b) v16.push_back((char16_t)x);
+        v32.push_back((char32_t)v);
+        if (v >= 0x100) latin = false;
+    }
+    if (latin) for (uint32_t v : sc) vl1.push_back((char)v);
+    const verif::Exact<char> e8(v8.data(), v8.size()); const verif::Exact<char16_t> e16(v16.data(), v16.size()); const verif::Exact<char32_t> e32(v32.data(), v32.size());
+    const verif::Exact<wchar_t> ew(reinterpret_cast<const wchar_t *>(v32.data()), v32.size()); const verif::Exact<char> el1(vl1.data(), vl1.size());
+    const char *p8 = e8.data(); const char16_t *p16 = e16.data(); const char32_t *p32 = e32.data(); const wchar_t *pw = ew.data();
+    const size_t n8 = e8.size(), n16 = e16.size(), n32 = e32.size();
+    const ST::utf_validation_t modes[3] = {ST::assume_valid, ST::substitute_invalid, ST::check_validity};
+    const char *mname = "";
+    for (int m = 0; m < 3; m++) {
+        const ST::utf_validation_t M = modes[m]; mname = conv::mode_name((ref::Mode)m);
+        LEAN("utf8_to_utf16", ST::utf8_to_utf16(p8, n8, M), p16, n16);
+        LEAN("utf8_to_utf32", ST::utf8_to_utf32(p8, n8, M), p32, n32);
+        LEAN("utf8_to_wchar", ST::utf8_to_wchar(p8, n8, M), p32, n32);
+        LEAN("utf16_to_utf8", ST::utf16_to_utf8(p16, n16, M), p8, n8);
+        LEAN("utf16_to_utf32", ST::utf16_to_utf32(p16, n16, M), p32, n32);
+        LEAN("utf16_to_wchar", ST::utf16_to_wchar(p16, n16, M), p32, n32);
+        LEAN("utf32_to_utf8", ST::utf32_to_utf8(p32, n32, M), p8, n8);
+        LEAN("utf32_to_utf16", ST::utf32_to_utf16(p32, n32, M), p16, n16);
+        LEAN("utf32_to_wchar", ST::utf32_to_wchar(p32, n32, M), p32, n32);
+        LEAN("wchar_to_utf8", ST::wchar_to_utf8(pw, n32, M), p8, n8);
+        LEAN("wchar_to_utf16", ST::wchar_to_utf16(pw, n32, M), p16, n16);
+        LEAN("wchar_to_utf32", ST::wchar_to_utf32(pw, n32, M), p32, n32);
+        LEAN("ST::string(const char*,size,mode)", ST::string(p8, n8, M), p8, n8);
+        LEAN("ST::string::from_utf16", ST::string::from_utf16(p16, n16, M), p8, n8);
+        LEAN("ST::string::from_utf32", ST::string::from_utf32(p32, n32, M), p8, n8);
+        LEAN("ST::string::from_wchar", ST::string::from_wchar(pw, n32, M), p8, n8);
+        LEAN("set(std::string_view,mode)", [&] { ST::string t("x"); t.set(std::string_view(p8, n8), M); return t; }(), p8, n8);
+        LEAN("set(utf16_buffer,mode)", [&] { ST::string t("x"); t.set(ST::utf16_buffer(p16, n16), M); return t; }(), p8, n8);
+        if (latin) {
+            for (int fl = 0; fl < 2; fl++) {
+                LEAN("utf8_to_latin_1", ST::utf8_to_latin_1(p8, n8, M, fl == 0), el1.data(), n32);
+                LEAN("utf16_to_latin_1", ST::utf16_to_latin_1(p16, n16, M, fl == 0), el1.data(), n32);
+                LEAN("utf32_to_latin_1", ST::utf32_to_latin_1(p32, n32, M, fl == 0), el1.data(), n32);
+                LEAN("wchar_to_latin_1", ST::wchar_to_latin_1(pw, n32, M, fl == 0), el1.data(), n32);
+            }
+        }
+    }
+    mname = "n/a";
+    const ST::string s = ST::string::from_validated(p8, n8);
+    LEAN("ST::string::from_validated", s, p8, n8);
+    LEAN("ST::string::to_utf16", s.to_utf16(), p16, n16);
+    LEAN("ST::string::to_utf32", s.to_utf32(), p32, n32);
+    LEAN("ST::string::to_wchar", s.to_wchar(), p32, n32);
+    LEAN("ST::string::to_utf8", s.to_utf8(), p8, n8);
+    LEAN("ST::string::to_std_u16string", s.to_std_u16string(), p16, n16);
+    LEAN("operator\"\"_st(char32_t)", ST::literals::operator""_st(p32, n32), p8, n8);
+    LEAN("ST::string + ST::string", s + ST::string(), p8, n8);
+    if (latin) {
+        LEAN("latin_1_to_utf8", ST::latin_1_to_utf8(el1.data(), n32), p8, n8);
+        LEAN("latin_1_to_utf16", ST::latin_1_to_utf16(el1.data(), n32), p16, n16);
+        LEAN("latin_1_to_utf32", ST::latin_1_to_utf32(el1.data(), n32), p32, n32);
+        LEAN("latin_1_to_wchar", ST::latin_1_to_wchar(el1.data(), n32), p32, n32);
+        LEAN("latin_1_to_utf8(char_buffer)", ST::latin_1_to_utf8(ST::char_buffer(el1.data(), n32)), p8, n8);
+        LEAN("ST::string::from_latin_1", ST::string::from_latin_1(el1.data(), n32), p8, n8);
+        LEAN("ST::string::to_latin_1", s.to_latin_1(), el1.data(), n32);
+        LEAN("ST::string::to_latin_1(false)", s.to_latin_1(false), el1.data(), n32);
+        LEAN("ST::string::to_std_string(false)", s.to_std_string(false), el1.data(), n32);
+    }
+    return std::string();
+}
+std::string lean_long(const std::vector<uint32_t> &sc, long &ncalls) {
+    try { return lean_long_inner(sc, ncalls); } catch (...) { return "long text rejected or failed: " + verif::describe_current_exception(); }
+}
+
+// ---- compiled-in literals ------------------------------------------------------------------
+struct LitForms {
+    const char *spelled; const char32_t *scalars; size_t n;
+    ST::string st_literal; ST::char_buffer char_literal; ST::wchar_buffer wchar_literal; ST::utf16_buffer utf16_literal; ST::utf32_buffer utf32_literal;
+    ST::string st, st8, st16, st32, stw;
+    ST::char_buffer buf, buf8; ST::utf16_buffer buf16; ST::utf32_buffer buf32; ST::wchar_buffer bufw;
+};
+std::string check_literal(const LitForms &f, long &ncalls) {
+    std::vector<uint32_t> sc(f.scalars, f.scalars + f.n);
+    const Units u8 = ref::encode(ref::UTF8, sc), u16 = ref::encode(ref::UTF16, sc), u32 = ref::encode(ref::UTF32, sc);
+    const std::string lit = std::string("literal ") + f.spelled + ": ";
+#define LITCHK(what, obj, want) do { conv::Outcome o__; conv::capture(obj, o__); ncalls++; \
+        if (o__.out != (want) || o__.reported_size != (want).size()) return lit + what + " gives " + verif::units(o__.out, 32) + " (size " + verif::unum(o__.reported_size) + "), the standard encoding is " + verif::units(want, 32) + " (size " + verif::unum((want).size()) + ")"; \
+        if (!o__.terminated) return lit + what + " is not NUL-terminated"; } while (0)
+    LITCHK("ST_LITERAL", f.st_literal, u8); LITCHK("ST_CHAR_LITERAL", f.char_literal, u8); LITCHK("ST_WCHAR_LITERAL", f.wchar_literal, u32);
+    LITCHK("ST_UTF16_LITERAL", f.utf16_literal, u16); LITCHK("ST_UTF32_LITERAL", f.utf32_literal, u32);
+    LITCHK("\"...\"_st", f.st, u8); LITCHK("u8\"...\"_st", f.st8, u8); LITCHK("u\"...\"_st", f.st16, u8); LITCHK("U\"...\"_st", f.st32, u8); LITCHK("L\"...\"_st", f.stw, u8);
+    LITCHK("\"...\"_stbuf", f.buf, u8); LITCHK("u8\"...\"_stbuf", f.buf8, u8); LITCHK("u\"...\"_stbuf", f.buf16, u16); LITCHK("U\"...\"_stbuf", f.buf32, u32); LITCHK("L\"...\"_stbuf", f.bufw, u32);
+    // and onwards from the literal objects
+    LITCHK("ST_LITERAL(...).to_utf16()", f.st_literal.to_utf16(), u16); LITCHK("ST_LITERAL(...).to_utf32()", f.st_literal.to_utf32(), u32);
+    LITCHK("ST::string(ST_UTF16_LITERAL(...))", ST::string(f.utf16_literal), u8); LITCHK("ST::string(ST_UTF32_LITERAL(...))", ST::string(f.utf32_literal), u8);
+    LITCHK("ST::string(ST_WCHAR_LITERAL(...))", ST::string(f.wchar_literal), u8); LITCHK("ST::string(ST_CHAR_LITERAL(...))", ST::string(f.char_literal), u8);
+    LITCHK("ST::string::from_utf16(u\"...\"_stbuf)", ST::string::from_utf16(f.buf16), u8);
+#undef LITCHK
+    return std::string();
+}
+#define LIT_FORMS(x) LitForms{#x, U"" x, sizeof(U"" x) / sizeof(char32_t) - 1, ST_LITERAL(x), ST_CHAR_LITERAL(x), ST_WCHAR_LITERAL(x), ST_UTF16_LITERAL(x), ST_UTF32_LITERAL(x), \
+                              x##_st, u8"" x##_st, u"" x##_st, U"" x##_st, L"" x##_st, x##_stbuf, u8"" x##_stbuf, u"" x##_stbuf, U"" x##_stbuf, L"" x##_stbuf}
+std::string literal_case(unsigned idx, long &ncalls, std::string *text) {
+    using namespace ST::literals;
+    try {
+        switch (idx % kNumLiterals) {
+#define LIT(i, x) { case i: if (text) *text = #x; return check_literal(LIT_FORMS(x), ncalls); }
+        LIT(0, "")
+        LIT(1, "a")
+        LIT(2, "\0")
+        LIT(3, "a\0b")
+        LIT(4, "\0\0\0")
+        LIT(5, "\u00e9")
+        LIT(6, "a\0\u00e9")
+        LIT(7, "\u20ac\0")
+        LIT(8, "\U0001F600")
+        LIT(9, "\U0010FFFF\0\U00010000")
+        LIT(10, "0123456789abcdef")
+        LIT(11, "0123456789abcde")
+        LIT(12, "0123456789abcd\u00e9")
+        LIT(13, "0123456789a\U0001F600")
+        LIT(14, "\0" "0123456789abcdef0123456789abcdef0123456789abcdef\u00e9\u20ac\U0001F600")
+        default: LIT(15, "\u00ff\u0100\u07ff\u0800\ud7ff\ue000\uffff\U00010000")
+#undef LIT
+        }
+    } catch (...) { return "literal #" + verif::unum(idx) + ": " + verif::describe_current_exception(); }
+}
+static_assert(kNumLiterals == 16, "literal table size");
+
+// one grid point of the long-text enumeration as an input of verif_case (first byte 0xFD; explicit length code 255)
+std::vector<uint8_t> long_case_bytes(unsigned anchor, const std::vector<unsigned> &pattern_idx, uint32_t total, bool pad_front) {
+    std::vector<uint8_t> b{0xFD, (uint8_t)anchor};
+    b.push_back(pattern_idx.size() == 1 ? 0 : (uint8_t)(3 + 4 * (pattern_idx.size() - 2)));
+    for (unsigned i : pattern_idx) b.push_back((uint8_t)i);
+    b.push_back(255); for (int k = 0; k < 4; k++) b.push_back((uint8_t)(total >> (8 * k)));
+    b.push_back(pad_front ? 0 : 1);
+    return b;
+}
 }  // namespace
 
 long verif_enumerate(int shard, int nshards, int tier, verif::EnumReport &r) {
@@ -329,7 +613,52 @@ long verif_enumerate(int shard, int nshards, int tier, verif::EnumReport &r) {
         }
         if (!why.empty()) { r.failure = why; r.failing_case = "C01 latin-1 byte " + verif::units(one.data(), (size_t)1); r.failing_bytes.assign(d1, d1 + 2); return r.evaluations; }
     }
+    // Long texts (deterministic grid; every point is also an input of verif_case): runs of one identical character of each width class and of
+    // Latin-1 high bytes, total length = 256 Ki / 300 Ki / 320 Ki units of the anchor encoding and one off, text ending in the multi-unit character.
+    {
+        static const unsigned cls_quick[] = {0 /*E9*/, 1 /*FF*/, 2 /*20AC*/, 3 /*1F600*/, 4 /*7FF*/, 8 /*10FFFF*/};
+        static const uint32_t tot_quick[] = {262143, 262144, 262145, 307200, 327680};
+        static const uint32_t tot_thorough[] = {4096, 65535, 65536, 65537, 131072, 262143, 262144, 262145, 307200, 327679, 327680, 327681, 524288, 1048575, 1048576, 1048577};
+        std::vector<std::vector<uint8_t>> grid;
+        for (unsigned a = 0; a < 3; a++)
+            for (unsigned ci = 0; ci < 6; ci++)
+                for (size_t ti = 0; ti < (tier ? 16u : 5u); ti++) {
+                    const uint32_t total = tier ? tot_thorough[ti] : tot_quick[ti];
+                    if (tier && total >= 1048575 && !(ci == 0 || ci == 3)) continue;          // the 1 Mi points: Latin-1 high byte and 4-byte runs only
+                    grid.push_back(long_case_bytes(a, {cls_quick[ci]}, total, true));
+                    if (ti % 2 == 1) grid.push_back(long_case_bytes(a, {cls_quick[ci]}, total, false));
+                }
+        if (tier) {        // mixed patterns: the same columns of every 2/4/8-unit group hold the multi-unit character
+            static const std::vector<unsigned> pats[] = {{0, 14}, {14, 0}, {0, 0, 14, 14}, {14, 14, 14, 0}, {3, 14}, {2, 14, 14}, {1, 2, 3}, {0, 15}};
+            for (unsigned a = 0; a < 3; a++) for (const auto &pt : pats) for (uint32_t total : {262144u, 327681u}) grid.push_back(long_case_bytes(a, pt, total, true));
+        }
+        for (size_t gi = (size_t)shard; gi < grid.size(); gi += (size_t)nshards) {
+            const std::vector<uint8_t> &bytes = grid[gi];
+            verif::set_current(bytes.data(), bytes.size());
+            verif::Case cs; verif::Reader rd(bytes.data() + 1, bytes.size() - 1, cs);
+            ugen::LongText t = ugen::long_scalars(rd);
+            long nc = 0;
+            std::string why = lean_long(t.scalars, nc);
+            r.evaluations++; r.nontrivial++;
+            std::string pat; char tmp[16]; for (uint32_t v : t.pattern) { snprintf(tmp, sizeof tmp, "U+%04X ", v); pat += tmp; }
+            std::string desc = "C01 long text: pattern " + pat + "repeated, " + verif::unum(t.total) + " " + conv::enc_name(t.anchor) + " units exactly (" + verif::unum(t.scalars.size()) + " scalars)";
+            if (!why.empty()) { r.failure = why; r.failing_case = desc; r.failing_bytes = bytes; return r.evaluations; }
+            if (r.want_sample() && gi % 37 == 5) r.samples.push_back(desc + " [enumerated] -> " + verif::num(nc) + " conversions x modes");
+        }
+    }
+    // compiled-in literals
+    for (unsigned li = (unsigned)shard; li < kNumLiterals; li += (unsigned)nshards) {
+        uint8_t d[2] = {0xFC, (uint8_t)li}; verif::set_current(d, 2);
+        long nc = 0; std::string text;
+        std::string why = literal_case(li, nc, &text);
+        r.evaluations++; if (li >= 2) r.nontrivial++;
+        if (!why.empty()) { r.failure = why; r.failing_case = "C01 literal #" + verif::unum(li) + " " + text; r.failing_bytes.assign(d, d + 2); return r.evaluations; }
+    }
     if (shard == 0) {
+        r.exhausted.push_back(std::string("grid of long texts: runs of U+00E9, U+00FF, U+20AC, U+1F600, U+07FF, U+10FFFF x anchor encoding UTF-8/16/32 x total length ") +
+                              (tier ? "4 Ki .. 1 Mi units incl. 64 Ki, 256 Ki, 320 Ki, 512 Ki, 1 Mi and one off, plus mixed 2-4 character patterns" : "256 Ki-1, 256 Ki, 256 Ki+1, 300 Ki, 320 Ki units") +
+                              " through 18 conversions x 3 modes, the Latin-1 conversions x 2 flags and the ST::string members");
+        r.exhausted.push_back("16 compiled-in literals (empty, embedded and trailing NULs, 1-4 byte characters, lengths at the small-buffer limits) in 15 literal forms: ST_LITERAL, ST_CHAR/WCHAR/UTF16/UTF32_LITERAL, \"\"_st and \"\"_stbuf with no/u8/u/U/L prefix");
         r.exhausted.push_back(std::string("all 1,112,064 Unicode scalar values ") + (tier ? "in 13 contexts (alone; before/after/between U+0041, U+00E9, U+20AC, U+1F600)" : "alone") +
                               " through 15 conversions x 3 modes + 3 ST::string::to_* members");
         r.exhausted.push_back("all 256 Latin-1 bytes and all 65,536 ordered pairs through every Latin-1 conversion (both directions, all routes, modes, substitution flags)");
